@@ -40,6 +40,7 @@ MIXES = {
     "C07": ["recycle", "mixed", "values"],
     "C08": ["values", "recycle"],
     "C09": ["move", "tops"],
+    "C11": ["recycle", "mixed"],
     "C12": ["fail", "recycle", "tops"],
     "C13": ["values", "mixed"],
     "C16": ["values", "recycle"],
@@ -102,10 +103,14 @@ def check_property(prop, tier):
             path, meta = ensure_bundles(bundle_cfgs[0])
             r = run_replay(build_harness("debug"), path, ["--tracked"], "C08-tracked")
             add_replay(v, r, meta, "payload type with identity and destructor; every case rebuilt from its call path", ["C08"])
+            r = run_replay(build_harness("debug"), path, ["--after-clear", "--no-observers", "--no-lookups"], "C08-after-clear")
+            add_replay(v, r, meta, "every bundle replayed again after an arbitrary earlier history followed by clear() (payload read-back in histories containing clear)", ["C08", "C13"])
         if prop == "C13":
             path, meta = ensure_bundles(bundle_cfgs[0])
             r = run_replay(build_harness("debug"), path, ["--after-clear", "--no-observers", "--no-lookups"], "C13-after-clear")
             add_replay(v, r, meta, "every bundle replayed again after an arbitrary earlier history followed by clear()", ["C13"])
+            r = run_replay(build_harness("debug"), path, ["--clone-bisim", "--no-observers", "--no-lookups"], "C13-clone-bisim")
+            add_replay(v, r, meta, "a third of the calls of every state applied to a second original rebuilt from the path: same result, == arena, same reusable slots as on the clone", ["C13"])
             r = run_replay(build_harness("debug"), path, ["--with-capacity", "7", "--no-observers", "--no-lookups"], "C13-with-capacity")
             add_replay(v, r, meta, "every bundle replayed on Arena::with_capacity(7)", ["C13"])
 
@@ -138,7 +143,7 @@ def check_property(prop, tier):
     if prop in MIXES:
         b = build_harness("release" if prop in ("C05",) and SEED % 2 == 0 else "debug")
         specs = trace_specs(prop, tier)
-        if prop in ("C06", "C07"):
+        if prop in ("C06", "C07", "C11"):
             specs += boundary_specs(tier)
         r = run_traces(b, specs, prop)
         if prop in ("C06", "C07"):
